@@ -426,4 +426,314 @@ def aggArr (g : Agg) (e : Elem) : Option Py :=
 def aggTerm (g : Agg) (e : Elem) : Option Py :=
   if e.arrayed then aggArr g e else some (aggScalar g e)
 
+/-! ## Wave 2: operator operands (nesting), any time argument, Stock targets
+
+`Ex` is the operand tree the DSL builds: a wrapped number (`UnaryOperator`), an element, or a binary
+operator over two such operands.  `Ex.term tm x I` is `x.term(time)` of the clone of `x` that
+`clone_with_index(I)` produces (`I = none`: the operator as built, index `None`), with `time` printed as
+`tm` (`t` for converters, `t-model.dt` inside a stock).  After `fixes/C10-dot-nested-operand-index`
+`Operator.arrayed_term(index)` is `clone_with_index(index).term(time)`, i.e. `Ex.term tm x (some index)`:
+every level of a compound operand carries the index the dot product asks for. -/
+
+def tNow : Py := .name "t"
+/-- `t-model.dt` -/
+def tPrev : Py := .bin .sub (.name "t") (.attr (.name "model") "dt")
+
+def refT (tm : Py) (nm : String) (path : List Key) : Py :=
+  .call (.attr (.name "model") "memoize") [.str (nm ++ pathStr path), tm]
+
+def Elem.subT (tm : Py) (e : Elem) (idx : List Key) : Option Py := (e.path idx).map (refT tm e.name)
+
+inductive Ex
+  | num (neg : Bool) (lit : String)
+  | el (e : Elem)
+  | op (f : Form) (a b : Ex)
+deriving Repr, Inhabited
+
+def Ex.ofOperand : Operand → Ex
+  | .num n l => .num n l
+  | .el e => .el e
+
+/-- `isinstance(x, Element) and x._elements.vector_size() > 0` -/
+def Ex.arrEl : Ex → Bool
+  | .el e => e.arrayed
+  | _ => false
+
+/-- `_is_arrayed(x)` / `is_any_subelement_arrayed()`: an arrayed element anywhere below -/
+def Ex.anyArr : Ex → Bool
+  | .num _ _ => false
+  | .el e => e.arrayed
+  | .op _ a b => a.anyArr || b.anyArr
+
+def Ex.namedArr : Ex → Bool
+  | .el e => e.arrayed && e.named
+  | _ => false
+
+/-- the constructor checks: only two arrayed ELEMENTS are compared; `dot` refuses named arrayed elements -/
+def ctorE (f : Form) (a b : Ex) : Bool :=
+  match f, a, b with
+  | .dot, _, _ => !a.namedArr && !b.namedArr
+  | _, .el x, .el y => if x.arrayed && y.arrayed then sameIndex x y else true
+  | _, _, _ => true
+
+/-- every operator of the tree could be constructed -/
+def Ex.wf : Ex → Bool
+  | .op f a b => a.wf && b.wf && ctorE f a b
+  | _ => true
+
+/-- `dim[1]` -/
+def Dims.snd : Dims → Nat
+  | .d2 _ n => n
+  | _ => 0
+
+/-- `resolve_dimensions` of `+ - * /` and NumericalMultiplication on the operands' dimensions
+(Python list equality: `[m] != [m, 0]`) -/
+def resolveEwD (d1 d2 : Dims) : Option Dims :=
+  if d1 ≠ .val ∧ d2 ≠ .val then (if d1 = d2 then some d1 else none)
+  else if d1 ≠ .val then some d1 else some d2
+
+/-- `DotOperator.resolve_dimensions` on the operands' dimensions, including the one-element lists `[m]`
+that only operator operands report -/
+def resolveDotD (d1 d2 : Dims) : Option Dims :=
+  if d1 = .val then (if d2 = .val then none else some d2)
+  else if d2 = .val then some d1
+  else if d1.isVec then
+    if d2.isVec then (if d1.rows = d2.rows then some .val else none)
+    else (if d1.rows = d2.rows then some (.d1 d2.snd) else none)
+  else if d2.isVec then (if d1.snd = d2.rows then some (.d1 d1.rows) else none)
+  else (if d1.snd = d2.rows then some (.d2 d1.rows d2.snd) else none)
+
+/-- `_get_element_dimensions(x)`; `none` = the nested `resolve_dimensions` raises -/
+def Ex.dims : Ex → Option Dims
+  | .num _ _ => some .val
+  | .el e => some (elemDims e)
+  | .op f a b =>
+    match a.dims, b.dims with
+    | some d1, some d2 => (match f with | .dot => resolveDotD d1 d2 | _ => resolveEwD d1 d2)
+    | _, _ => none
+
+/-- `cur = x; for i in idx: cur = cur[i]; cur.term(time)` — only elements can be subscripted -/
+def Ex.subEl (tm : Py) (x : Ex) (idx : List Key) : Option Py :=
+  match x with
+  | .el e => e.subT tm idx
+  | _ => none
+
+def opt2 (f : Py → Py → Py) : Option Py → Option Py → Option Py
+  | some x, some y => some (f x y)
+  | _, _ => none
+
+/-- `x.term(time)` of the clone with index `I` -/
+def Ex.term (tm : Py) : Ex → Option (List Key) → Option Py
+  | .num n l, _ => some (numPy n l)
+  | .el e, _ => some (refT tm e.name [])
+  | .op (.ew o) a b, I =>
+    if a.arrEl || b.arrEl then                       -- `self.arrayed`
+      match I with
+      | none => some (.num "0.0")
+      | some idx =>
+        opt2 (ewTmpl o) (if a.arrEl then a.subEl tm idx else a.term tm I)
+                        (if b.arrEl then b.subEl tm idx else b.term tm I)
+    else opt2 (ewTmpl o) (a.term tm I) (b.term tm I)
+  | .op .nmul a b, I =>
+    if a.arrEl || b.arrEl then
+      match I with
+      | none => some (.num "0.0")
+      | some idx =>
+        opt2 prodTerm (if b.arrEl then b.subEl tm idx else b.term tm I)
+                      (if a.arrEl then a.subEl tm idx else a.term tm I)
+    else opt2 prodTerm (b.term tm I) (a.term tm I)
+  | .op .dot a b, I =>
+    -- `_get_sub_element_term`: elements are subscripted, operators re-cloned with the asked index
+    let subA : List Key → Option Py := fun ix => match a with | .el e => e.subT tm ix | _ => a.term tm (some ix)
+    let subB : List Key → Option Py := fun ix => match b with | .el e => e.subT tm ix | _ => b.term tm (some ix)
+    match a.dims, b.dims with
+    | some d1, some d2 =>
+      (match I with
+       | none =>
+         if d1 = .val then none                                   -- `len(-1)`
+         else if d1.isVec then
+           if d2 = .val then none
+           else if d2.isVec then
+             if d1.rows = d2.rows then
+               dotChain ((List.range d1.rows).map fun k => (a.subEl tm [.i k], b.subEl tm [.i k]))
+             else none
+           else some (.num "0.0")
+         else some (.num "0.0")
+       | some idx =>
+         if d1 = .val then
+           if d2 = .val then none else opt2 prodTerm (a.term tm I) (b.subEl tm idx)
+         else if d2 = .val then opt2 prodTerm (a.subEl tm idx) (b.term tm I)
+         else if d1.isVec then
+           if d2.isVec then
+             if d1.rows = d2.rows then
+               dotChain ((List.range d1.rows).map fun k => (a.subEl tm [.i k], b.subEl tm [.i k]))
+             else none
+           else if d1.rows = d2.rows then
+             (match idx with
+              | j :: _ =>
+                (match keyNat j with
+                 | some jn => if jn ≥ d2.snd then none
+                              else dotChain ((List.range d2.rows).map fun k => (subA [.i k], subB [.i k, j]))
+                 | none => none)
+              | [] => none)
+           else none
+         else if d2.isVec then
+           if d1.snd = d2.rows then
+             (match idx with
+              | i :: _ =>
+                (match keyNat i with
+                 | some iN => if iN ≥ d1.rows then none
+                              else dotChain ((List.range d1.snd).map fun k => (subA [i, .i k], subB [.i k]))
+                 | none => none)
+              | [] => none)
+           else none
+         else
+           (match idx with
+            | [i, j] =>
+              (match keyNat i, keyNat j with
+               | some iN, some jN =>
+                 if iN ≥ d1.rows ∨ jN ≥ d2.snd then none
+                 else dotChain ((List.range d1.snd).map fun k => (subA [i, .i k], subB [.i k, j]))
+               | _, _ => none)
+            | _ => none))
+    | _, _ => none
+
+/-- `.named_arrayed` of an operand; `none` = AttributeError (wrapped numbers and operators have none) -/
+def Ex.namedOf : Ex → Option Bool
+  | .el e => some e.named
+  | _ => none
+
+def isNamedE (f : Form) (a b : Ex) : Option Bool :=
+  match f with
+  | .dot => some false
+  | .ew _ => a.namedOf
+  | .nmul => if a.arrEl then a.namedOf else b.namedOf
+
+def Ex.keysOf : Ex → List Key
+  | .el e => e.keys
+  | _ => []
+
+def indexKeyE (f : Form) (a b : Ex) (i : Nat) : Option Key :=
+  match f with
+  | .nmul => if a.arrEl then a.keysOf[i]? else b.keysOf[i]?
+  | _ => a.keysOf[i]?
+
+/-- the index list `_handle_arrayed` walks for resolved vector dimensions: names or `0..m-1` -/
+def vecIndexE (f : Form) (a b : Ex) (named : Bool) (i : Nat) : Option Key :=
+  if named then indexKeyE f a b i else some (.i i)
+
+def vecEntriesE (tm : Py) (f : Form) (a b : Ex) (named : Bool) (m : Nat) : Option (List (Key × Py)) :=
+  optAll ((List.range m).map fun i =>
+    match vecIndexE f a b named i with
+    | some k => ((Ex.op f a b).term tm (some [k])).map fun p => (k, p)
+    | none => none)
+
+def matEntriesE (tm : Py) (x : Ex) (m n : Nat) : Option (List (List Py)) :=
+  optAll ((List.range m).map fun i => optAll ((List.range n).map fun j => x.term tm (some [.i i, .i j])))
+
+/-- What assigning the operator tree `x` to a fresh converter (`tm = t`) produces: `_handle_arrayed`
+(generic branch), or the plain scalar equation when the resolved dimensions are `-1`. -/
+def expandE (tm : Py) (x : Ex) : Option Result :=
+  match x with
+  | .op f a b =>
+    if !x.wf then none
+    else if !x.anyArr then (x.term tm none).map .scalar
+    else
+      match x.dims with
+      | none => none
+      | some .val => (x.term tm none).map .scalar
+      | some d =>
+        if d.isVec then
+          match isNamedE f a b with
+          | none => none
+          | some nm => (vecEntriesE tm f a b nm d.rows).map (.vector nm)
+        else
+          match d with
+          | .d2 m n => (matEntriesE tm x m n).map .matrix
+          | _ => none
+  | _ => none
+
+/-! ### Stock targets -/
+
+/-- the function string `Stock.build_function_string` emits for the (sub-)stock `nm`:
+`( (init) if (t <= model.starttime) else (model.memoize('nm',t-model.dt))+ model.dt*(flow) )` -/
+def stockFs (nm : String) (init : Py) (flow : Option Py) : Py :=
+  let prev := Py.paren (refT tPrev nm [])
+  .paren (.ite (.paren init) (.paren (.bin .le (.name "t") (.attr (.name "model") "starttime")))
+    (match flow with
+     | none => prev
+     | some p => .bin .add prev (.bin .mul (.attr (.name "model") "dt") (.paren p))))
+
+/-- The Stock branch of `_handle_arrayed`: the ARRAYED stock `s` is assigned the operator tree `x`.
+Result: the sub-stocks (stored key path; `[]` = the stock itself) that receive an equation, each with its
+flow term (printed at `t-model.dt`); sub-stocks not listed keep what they had. `none` = raises. -/
+def stockAssign (s : Elem) (x : Ex) : Option (List (List Key × Py)) :=
+  match x with
+  | .op f a b =>
+    if !x.wf || !s.arrayed then none
+    else if !x.anyArr then (x.term tPrev none).map fun p => [([], p)]
+    else
+      match x.dims with
+      | none => none
+      | some .val => (x.term tPrev none).map fun p => [([], p)]
+      | some d =>
+        if d.isVec then
+          match isNamedE f a b with
+          | none => none
+          | some nm =>
+            optAll ((List.range d.rows).map fun i =>
+              match vecIndexE f a b nm i with
+              | some k =>
+                (match findKey s.keys k, x.term tPrev (some [k]) with
+                 | some k', some p => some ([k'], p)
+                 | _, _ => none)
+              | none => none)
+        else
+          match d with
+          | .d2 m n =>
+            (optAll ((List.range m).map fun i => optAll ((List.range n).map fun j =>
+              match s.path [.i i, .i j], x.term tPrev (some [.i i, .i j]) with
+              | some pth, some p => some (pth, p)
+              | _, _ => none))).map List.flatten
+          | _ => none
+  | _ => none
+
+/-- `S.equation = E` for an arrayed stock `S` and an arrayed ELEMENT `E` (first branch): sub-stock by
+sub-stock, recursively through the rows; the flow of sub-stock `k` is the reference to `E[k]`.  The branch
+reports "not an arrayed equation", so the setter also stores `E` as the equation of `S` itself (and of every
+row stock that is assigned a row): those get the reference to the arrayed parent as their flow. -/
+def stockAssignEl (s e : Elem) : Option (List (List Key × Py)) :=
+  if !s.arrayed || !e.arrayed then none
+  else if s.keys.length ≠ e.keys.length then none
+  else
+    let outer : List Key := if e.named then s.keys else rangeKeys s.keys.length
+    (optAll (outer.map fun k =>
+      match findKey s.keys k, findKey e.keys k with
+      | some sk, some ek =>
+        if !s.inner.isEmpty && !e.inner.isEmpty then
+          -- the row stock is arrayed and is assigned an arrayed row: same rule one level down
+          if s.inner.length ≠ e.inner.length then none
+          else
+            let inn : List Key := if e.named then s.inner else rangeKeys s.inner.length
+            (optAll (inn.map fun l =>
+              match findKey s.inner l, findKey e.inner l with
+              | some sl, some el' => some ([sk, sl], refT tPrev e.name [ek, el'])
+              | _, _ => none)).map fun leaves => leaves ++ [([sk], refT tPrev e.name [ek])]
+        else some [([sk], refT tPrev e.name [ek])]
+      | _, _ => none)).map fun rows => rows.flatten ++ [([], refT tPrev e.name [])]
+
+/-! ### `arr_sum(dimension)` / `arr_prod(dimension)` with an explicit dimension
+
+`_array_resolve` descends until `dimensions == depth` and then contributes nothing: with a depth smaller
+than the depth of the leaves the text is empty (the equation cannot be compiled — rejected); from the depth
+of the leaves on (and for the default `"*"`) it is the chain over all entries. -/
+def Elem.depth (e : Elem) : Nat := if e.inner.isEmpty then 1 else 2
+
+def aggDim (g : Agg) (dim : Nat) (e : Elem) : Option Py :=
+  match g with
+  | .sum | .prod =>
+    if !e.arrayed then aggTerm g e            -- a leaf is returned before the depth is looked at
+    else if dim < e.depth then none else aggTerm g e
+  | _ => none
+
 end Bptk.C10
